@@ -186,6 +186,7 @@ type Opts struct {
 	MinFrames    int
 	OnlyDecodable bool // message types drawn from the decodable set only
 	MaxPayload   int  // cap (0 = 1023)
+	NoSiblings   bool // never follow a frame by a nearly identical one
 }
 
 // GenPayload draws a payload for a frame of the given type.
@@ -426,6 +427,12 @@ func GenStream(t *rt.Tape, o Opts) []Segment {
 		switch t.SW(w...) {
 		case 0:
 			segs = append(segs, GenFrame(t, o))
+			if !o.NoSiblings && o.MaxPayload == 0 && t.SW(5, 1) == 1 {
+				// followed at once by a nearly identical frame
+				if sg, kind := SiblingFrame(t, segs[len(segs)-1].Bytes); kind != "" {
+					segs = append(segs, sg)
+				}
+			}
 		case 1:
 			segs = append(segs, GenJunk(t))
 		default:
